@@ -277,6 +277,14 @@ def run(ctx):
         n0 = len(rules)
         do(w["route"], [tuple(x) for x in w["fields"]])
         wit_ranges[fid] = (n0, len(rules), w.get("text"))
+    import json
+    import os
+    cdir = os.path.join(os.path.dirname(__file__), "..", "..", "corpus", "C13")
+    if os.path.isdir(cdir):
+        for fn in sorted(os.listdir(cdir)):
+            if fn.endswith(".json"):
+                w = json.load(open(os.path.join(cdir, fn)))
+                do(w["route"], [tuple(x) for x in w["fields"]])
     for c in CONST_POOL:
         do("FIELDS", [("K", [f"CONST[{c}]"])])
         do("CONTRACT", [("K", ["REQ", f"CONST[{c}]"])])
@@ -318,8 +326,14 @@ def run(ctx):
             words_of[(kind, line)] = (ws, flag == "C")
     n_eval = 0
     pending = []     # (case, kind, chain, w, impl_ok, impl_tag, what)
+    done_frag = set()
     for case, kind, chain, line in rules:
         frag = line.split('"::" ws ', 1)[1] if '"::" ws ' in line else None
+        # reading and judging do not depend on the field name: one evaluation per distinct (chain, fragment)
+        if (enc_chain(chain), frag) in done_frag:
+            ctx.hist("duplicate_rule_skipped", kind)
+            continue
+        done_frag.add((enc_chain(chain), frag))
         try:
             rx = frag_to_regex(frag)
         except Exception:  # noqa
